@@ -14,6 +14,7 @@ import (
 	"net/http"
 	"strconv"
 	"sync"
+	"sync/atomic"
 	"time"
 
 	"verif/memwire"
@@ -104,12 +105,15 @@ type server struct {
 	non200UpMismatch int
 	retrySameBody    int
 
+	flagged atomic.Bool // a violation was reported for this connection
+
 	wg sync.WaitGroup
 }
 
 const reqStormCap = 6000
 
 func (s *server) viol(sig, detail string) {
+	s.flagged.Store(true)
 	s.c.Violation(sig, detail+"; "+s.desc, s.desc)
 }
 
@@ -193,7 +197,7 @@ func (s *server) onHeaders(req *http.Request, connIdx int) (int, plan, int) {
 		if !s.stormed {
 			s.stormed = true
 			s.refuse = true
-			s.c.Violation("request-storm/more-than-6000-requests-on-one-connection", "the connection issued more requests than any script can cause; server stopped answering; "+s.desc, s.desc)
+			s.viol("request-storm/more-than-6000-requests-on-one-connection", "the connection issued more requests than any script can cause; server stopped answering")
 		}
 		return -1, plan{}, 0
 	}
@@ -205,15 +209,15 @@ func (s *server) onHeaders(req *http.Request, connIdx int) (int, plan, int) {
 		s.maxInflight = s.inflight
 	}
 	if s.inflight > 1 {
-		s.c.Violation("in-flight/more-than-one-request", fmt.Sprintf("request #%d arrived (tcp conn %d) while %d other request(s) of the same meek connection had not been answered completely; %s", idx, connIdx, s.inflight-1, s.desc), s.desc)
+		s.viol("in-flight/more-than-one-request", fmt.Sprintf("request #%d arrived (tcp conn %d) while %d other request(s) of the same meek connection had not been answered completely", idx, connIdx, s.inflight-1))
 	}
 	if !s.sidSet {
 		s.sid, s.sidSet = rec.SID, true
 		if rec.SID == "" {
-			s.c.Violation("session-id/missing", "first request carries no X-Session-Id header; "+s.desc, s.desc)
+			s.viol("session-id/missing", "first request carries no X-Session-Id header")
 		}
 	} else if rec.SID != s.sid {
-		s.c.Violation("session-id/changes-within-connection", fmt.Sprintf("request #%d carries session id %q, the first request of the same connection carried %q; %s", idx, rec.SID, s.sid, s.desc), s.desc)
+		s.viol("session-id/changes-within-connection", fmt.Sprintf("request #%d carries session id %q, the first request of the same connection carried %q", idx, rec.SID, s.sid))
 	}
 	if req.Method != http.MethodPost {
 		s.r.Count("method_not_post", 1)
@@ -245,16 +249,16 @@ func (s *server) onBody(idx int, pl plan, body []byte) {
 	s.reqs[idx].BodyLen = len(body)
 	s.reqs[idx].upOff = s.upOff
 	if len(body) > maxBody {
-		s.c.Violation("body-too-large/over-65536", fmt.Sprintf("request #%d has a body of %d bytes; %s", idx, len(body), s.desc), s.desc)
+		s.viol("body-too-large/over-65536", fmt.Sprintf("request #%d has a body of %d bytes", idx, len(body)))
 	}
 	bad := s.up.Check(body, s.upOff)
 	sub := s.submitted()
 	if s.judgeUp {
 		if bad >= 0 {
-			s.c.Violation("request-stream/not-a-prefix-of-written", fmt.Sprintf("request #%d (body %d bytes, expected to continue the stream at offset %d): byte %d of the body is not the byte the application wrote at stream offset %d (bytes handed to Write so far: %d); previous bodies: %s; %s",
-				idx, len(body), s.upOff, bad, s.upOff+int64(bad), sub, s.tailBodies(6), s.desc), s.desc)
+			s.viol("request-stream/not-a-prefix-of-written", fmt.Sprintf("request #%d (body %d bytes, expected to continue the stream at offset %d): byte %d of the body is not the byte the application wrote at stream offset %d (bytes handed to Write so far: %d); previous bodies: %s",
+				idx, len(body), s.upOff, bad, s.upOff+int64(bad), sub, s.tailBodies(6)))
 		} else if s.upOff+int64(len(body)) > sub {
-			s.c.Violation("request-stream/bytes-never-written", fmt.Sprintf("request #%d brings the bodies to %d bytes but only %d were handed to Write; %s", idx, s.upOff+int64(len(body)), sub, s.desc), s.desc)
+			s.viol("request-stream/bytes-never-written", fmt.Sprintf("request #%d brings the bodies to %d bytes but only %d were handed to Write", idx, s.upOff+int64(len(body)), sub))
 		}
 		s.upOff += int64(len(body))
 		return
